@@ -678,6 +678,22 @@ func checkTupleOrder(p *core.Prog, r *core.Result, ops *opTable, dt *decoderTabl
 		okOrder := true
 		for i, pop := range dc.Pops {
 			landed := int64(-1)
+			if l, viaLoop := dc.PopLand[i]; viaLoop {
+				// popped by a counted-loop helper whose result is what the case pushes
+				pushed := false
+				for _, ps := range dc.Pushes {
+					if core.DependsOn(ps.Call.Args[1], core.SliceOpts{}, func(v ssa.Value) bool { return v == ssa.Value(pop) }) {
+						pushed = true
+					}
+				}
+				if pushed {
+					landed = l
+				}
+				if landed != int64(n-1-i) {
+					okOrder = false
+				}
+				continue
+			}
 			for _, ref := range *pop.Referrers() {
 				if st, ok := ref.(*ssa.Store); ok {
 					if ia, ok := st.Addr.(*ssa.IndexAddr); ok {
